@@ -230,6 +230,8 @@ package vecengine
 //@   loop 1 invariant [biwf] biwf(vi.bi, len(vi.validators.values))
 //@   loop 1 invariant [bilistsA] bilistsA(vi.bi, len(vi.validators.values))
 //@   loop 1 invariant [bilistsB] bilistsB(vi.bi, len(vi.validators.values))
+//@   loop 1 hint assert cur(vi) == vi
+//@   loop 1 hint assert _k == iterold(_k) + 1 && vi.bi == iterold(vi.bi) && vi.bi.BranchIDByCreators == iterold(vi.bi.BranchIDByCreators) && vi.validators == iterold(vi.validators) && vi.validators.values == iterold(vi.validators.values) && len(vi.validators.values) == iterold(len(vi.validators.values))
 //@   loop 1 hint assert _k == iterold(_k) + 1 && parentsVecs[_k - 1] != nil
 //@   loop 1 hint assert _k == iterold(_k) + 1 && forall(i, 0, _k - 1, parentsVecs[i] == iterold(parentsVecs[i]))
 //@   loop 1 hint assert vi.bi.BranchIDCreatorIdxs == iterold(vi.bi.BranchIDCreatorIdxs) && forall(x, 0, len(vi.bi.BranchIDCreatorIdxs), vi.bi.BranchIDCreatorIdxs[x] == iterold(vi.bi.BranchIDCreatorIdxs[x])) && forall(c, 0, len(vi.validators.values), vi.bi.BranchIDByCreators[c] == iterold(vi.bi.BranchIDByCreators[c]) && forall(j, 0, len(vi.bi.BranchIDByCreators[c]), vi.bi.BranchIDByCreators[c][j] == iterold(vi.bi.BranchIDByCreators[c][j])))
